@@ -1,3 +1,4 @@
+import PyDBMLProofs.Props.C07
 import PyDBMLProofs.Props.C13
 import PyDBMLProofs.Props.C16
 import PyDBMLProofs.Props.C17
